@@ -26,6 +26,9 @@ FT = {
     "optT": ("::core::option::Option<T>", ["::core::option::Option::None", "::core::option::Option::Some(2u8)"], "all"),
     "arr": ("[u8; N]", ["[0u8, 0u8]", "[1u8, 2u8]"], "all"),
     "str": ("&'a str", ["\"p\"", "\"q\""], "all"),
+    # two field types that are equal up to the lifetime
+    "refaT": ("&'a T", ["&1u8", "&3u8"], "all"),
+    "refbT": ("&'b T", ["&1u8", "&2u8"], "all"),
 }
 RAW_FIELDS = ["r#type", "r#fn", "r#match"]
 RAW_VARIANTS = ["r#Self_", "r#loop", "r#Box"]
@@ -46,13 +49,15 @@ def gen_spec(rng):
     noeq_ok = not any(t in traits for t in ("Eq", "Ord", "Hash"))
     raw = rng.random() < 0.15
     pool = ["u8", "i32", "string", "opt", "vec", "pair", "sh", "cnt", "cnt"] + (["f64"] if noeq_ok else [])
-    gen_kind = rng.choice(["none", "none", "T", "T", "N", "a", "TNa"])
+    gen_kind = rng.choice(["none", "none", "T", "T", "N", "a", "TNa", "abT"])
     if "T" in gen_kind:
         pool += ["T", "optT"]
     if "N" in gen_kind:
         pool += ["arr"]
     if "a" in gen_kind and "Default" not in traits:
         pool += ["str"]
+    if gen_kind == "abT" and "Default" not in traits:
+        pool += ["refaT", "refaT", "refbT"]
     nv = 1 if kind == "struct" else rng.choice([0, 1, 1, 2, 2, 3, 4, 5])
     variants = []
     for vi in range(nv):
@@ -85,7 +90,7 @@ def gen_spec(rng):
         if rng.random() < 0.12 and variants[0]["style"] != "unit" and variants[0]["fields"]:
             spec["unsized"] = True
             spec["gen"] = "U"
-            variants[0]["fields"] = [f for f in variants[0]["fields"] if f not in ("T", "optT", "arr", "str")] + ["U"]
+            variants[0]["fields"] = [f for f in variants[0]["fields"] if f not in ("T", "optT", "arr", "str", "refaT", "refbT")] + ["U"]
             spec["traits"] = [t for t in spec["traits"] if t not in ("Clone", "Default")] or ["Debug"]
             spec["where"] = False
             spec["gdefault"] = False
@@ -93,9 +98,11 @@ def gen_spec(rng):
     g = spec["gen"]
     if g != "U":
         g2 = ""
-        if "a" in g and "str" in used:
+        if "a" in g and ("str" in used or "refaT" in used):
             g2 += "a"
-        if "T" in g and ("T" in used or "optT" in used):
+        if "b" in g and "refbT" in used:
+            g2 += "b"
+        if "T" in g and used & {"T", "optT", "refaT", "refbT"}:
             g2 += "T"
         if "N" in g and "arr" in used:
             g2 += "N"
@@ -132,6 +139,9 @@ def generics(spec):
     ps, inst = [], []
     if "a" in g:
         ps.append("'a")
+        inst.append("'static")
+    if "b" in g:
+        ps.append("'b")
         inst.append("'static")
     if "T" in g:
         ps.append("T" + (" = u8" if spec["gdefault"] else ""))
@@ -374,6 +384,12 @@ def core():
     specs.append(dict(base, kind="struct", traits=list(ALL8), type_attr="#[repr(packed)]", variants=[{"style": "named", "fields": ["u8", "i32"]}]))
     specs.append(dict(base, kind="struct", traits=["Clone", "Debug", "PartialEq"], entry="derive", type_attr="#[repr(C, packed(2))]",
                       variants=[{"style": "tuple", "fields": ["u8", "pair", "i32"]}]))
+    # field types equal up to the lifetime (`&'a T` next to `&'b T`: listed known finding); the same lifetime twice is fine
+    no_default = [t for t in ALL8 if t != "Default"]
+    specs.append(dict(base, kind="struct", gen="abT", traits=no_default, variants=[{"style": "tuple", "fields": ["refaT", "refbT"]}]))
+    specs.append(dict(base, kind="enum", gen="abT", traits=["Clone", "Debug", "PartialEq"], entry="derive", disc=False,
+                      variants=[{"style": "tuple", "fields": ["refaT"]}, {"style": "named", "fields": ["u8", "refbT"]}]))
+    specs.append(dict(base, kind="struct", gen="aT", traits=no_default, variants=[{"style": "named", "fields": ["refaT", "u8", "refaT"]}]))
     return specs
 
 
@@ -407,6 +423,8 @@ def run(rep, tier, rng):
             tags = feature_tags(s)
             if "packed" in tags and d["code"] == "E0793":
                 tags = "packed-struct"      # one signature for the listed finding, whatever else the type has
+            if d["code"] == "E0283" and {"refaT", "refbT"} <= {f for v in s["variants"] for f in v["fields"]}:
+                tags = "field-types-equal-up-to-lifetimes"      # listed finding: `&'a T` next to `&'b T`
             sigs.setdefault(f"C12|compile_fail|{d['code']}|{tags}", []).append(
                 (c, f"std derive compiles, derive_ex does not ({d['code']}: {(d['message'] or '')[:160]}): {describe(s)}"))
             continue
